@@ -305,6 +305,25 @@ impl Gen<'_> {
                 u.out.push(a);
                 u.out.push(b);
             }
+            96 => {
+                // a blank-ending alias makes the next word subject to alias
+                // substitution - also across a line continuation
+                self.word += 1;
+                let id = self.word;
+                let w = self.w();
+                u.lines.push(format!("alias c{id}='command ' r{id}='echo AL{id}'"));
+                if self.rng.bool() {
+                    u.lines.push(format!("c{id} \\"));
+                    let mut l = format!("r{id} {w}");
+                    self.maybe_tell(&mut l, &mut u, 2);
+                    u.lines.push(l);
+                } else {
+                    let mut l = format!("c{id} r{id} {w}");
+                    self.maybe_tell(&mut l, &mut u, 1);
+                    u.lines.push(l);
+                }
+                u.out.push(format!("AL{id} {w}"));
+            }
             95 => {
                 // an option that changes how the NEXT line is parsed
                 let (a, b) = (self.w(), self.w());
@@ -316,7 +335,7 @@ impl Gen<'_> {
                 u.out.push(a);
                 u.out.push(b);
             }
-            96..=97 => {
+            97 => {
                 let w = self.w();
                 let mut l = match self.rng.below(3) {
                     0 => format!("( echo {w} )"),
